@@ -297,6 +297,11 @@ func h4(s pairing.Suite, sigma []byte, length int) ([]byte, error) {
 func gtToHash(s pairing.Suite, gt kyber.Point, length int) ([]byte, error) {
 	hash := s.Hash()
 
+	// the pad is one hash output: anything longer would be XORed with zeros
+	if length > hash.Size() {
+		return nil, errors.New("requested pad is longer than the hash output")
+	}
+
 	if _, err := hash.Write(H2Tag()); err != nil {
 		return nil, errors.New("err writing dst to gtHash")
 	}
